@@ -254,6 +254,12 @@ func c17Stream(cs *drv.Case, vals []cval, stream []byte, cut int, e error, withD
 		c17Prev.err, c17Prev.src, c17Prev.text = ferr, e, ferr.Error()
 		return
 	}
+	if cut < len(stream) {
+		// the values need every byte of the stream and the source fails after cut of them: a reader that
+		// read all the values without any error has lost the source's error
+		cs.Fail("source-error-lost", M{"source_err": e.Error()}, M{"cut": cut, "stream_len": len(stream), "with_data": withData, "values": len(vals),
+			"message": "every value was read without an error although the underlying reader failed before the end of the stream"})
+	}
 }
 
 // c17StreamSkip: BufferReader.Skip over a valid value cut short must surface the source's error.
